@@ -89,6 +89,10 @@ type Closure struct {
 
 type Boxed struct{ V Val } // statically known dynamic value of an interface
 
+// FloatFlags: a float64 value that may be NaN (only produced by strconv.ParseFloat); comparisons honour it. The flag
+// is lost (value treated as an ordinary real, assumption A2) when the value is merged or stored in the heap.
+type FloatFlags struct{ NaN Term }
+
 type KnownSlice struct{ Elems []Val } // snapshot of a slice built from a local array (varargs)
 
 type MapIter struct {
